@@ -17,6 +17,7 @@ pub mod c17;
 pub mod c18;
 pub mod c19;
 pub mod c20;
+pub mod fparith;
 
 use symcore::Config;
 
@@ -47,6 +48,8 @@ pub fn instances(prop: &str, tier: &str, seed: u64) -> Vec<String> {
 }
 
 pub fn configure(prop: &str, inst: &str, cfg: &mut Config) {
+    // the "one rounding" clause is judged on the raw DAG: no algebraic simplification
+    if inst.starts_with("fp_arith") { cfg.simplify = false; return; }
     match prop {
         "C13" => c13::configure(inst, cfg),
         "C10" => c10::configure(inst, cfg),
@@ -64,6 +67,7 @@ pub fn body(prop: &str, inst: &str) {
 }
 
 fn body_inner(prop: &str, inst: &str) {
+    if inst.starts_with("fp_arith") { let (_, p) = parse_inst(inst); return fparith::body(&p["of"], &p); }
     match prop {
         "C01" => c01::body(inst),
         "C02" => c02::body(inst),
